@@ -8,6 +8,7 @@ import numpy as np
 
 from .. import ckpt_common as cc
 from .. import env
+from .. import runs_common as rc
 from ..runs_common import InjectedFault
 
 ID = "C11"
@@ -79,12 +80,16 @@ def _resume(case, route, blob, path):
 
 def run_case(case, ctx):
     tier_all = ctx.tier == "thorough"
+    # in every other configuration the option dictionaries are defined once and passed, as the same objects, to the
+    # interrupted run and to every resumed run ("the same sampling arguments")
+    rc.SHARED.clear()
+    rc.SHARED_ON[0] = case["seed"] % 2 == 1
     d = cc.tmpdir()
-    labels = [case["ns"], str(case["width"]), "pre:" + case["pre"], "adaptive" if case["adaptive"] else "fixed",
+    labels = (["shared-argument-objects"] if rc.SHARED_ON[0] else []) + [case["ns"], str(case["width"]), "pre:" + case["pre"], "adaptive" if case["adaptive"] else "fixed",
               f"cadence:{case['ckpt_every']}", f"n_final:{case['n_final']}"]
     keys = []
     try:
-        ref = os.path.join(d, "ref.h5")
+        ref = os.path.join(d, "ref" + cc.ext(case))
         P0 = cc.CkptProblem(case)
         with cc.WriteLog() as log0:
             try:
@@ -135,7 +140,7 @@ def run_case(case, ctx):
                 compare(route, w["blob"], None, f"checkpoint #{j} (iteration {w['iteration']}) of the uninterrupted run")
         # every crash point
         for k in range(T):
-            fk = os.path.join(d, f"fault{k}.h5")
+            fk = os.path.join(d, f"fault{k}" + cc.ext(case))
             Pk = cc.CkptProblem(case, fault=("likelihood", k))
             with cc.WriteLog() as logk:
                 try:
